@@ -50,6 +50,10 @@ def run(ctx):
     ctx.tlc("MC_Totality", "MC_Totality_scale_" + ctx.tier, replay="totality", coverage=False, case_timeout_ms=25000)
     ctx.tlc("MC_Totality", "MC_Totality_soup_" + ctx.tier, replay="totality", coverage=False)
     ctx.tlc("MC_Request", "MC_Request", replay="totality", coverage=False)
+    # the rule families of C04 (well-formed and ill-formed items; enumerator values at the extremes of every underlying type)
+    ctx.tlc("MC_Rules", "MC_Rules_enums_quick", replay="totality", coverage=False)
+    ctx.tlc("MC_Rules", "MC_Rules_attrs_quick", replay="totality", coverage=False)
+    ctx.tlc("MC_Rules", "MC_Rules_keys_quick", replay="totality", coverage=False)
     ctx.tlc("MC_DocComment", "MC_DocComment_dedent2", replay="totality", coverage=False)
     ctx.tlc("MC_DocComment", "MC_DocComment_malformed", replay="totality", coverage=False)
     os.environ["VERIF_TOTALITY_MUTATIONS"] = "40" if q else "200"
